@@ -481,7 +481,7 @@ TECHNIQUE = "Lean 4 theorems (induction over the window loop and the stage list)
 
 # --- source translator tie (tools/extractors/pysrc.py, Props/C16S.lean) ---
 LEVEL_TEXT += (
-    " SOURCE TIE (Props/C16S.lean): on every run tools/extractors/pysrc.py translates WarmUpStager.stages, WindowedWarmUpStager.__init__ (validation) and WindowedWarmUpStager.stages (the three sizes incl. int(0.15 n), int(0.1 n), the while loop as a fuel-recursive function, order / lengths / kinds / trace and statistics flags of the emitted stages) into Lean over Nat/Rat; src_warmUp_stages_eq_model, src_windows_eq_model (induction over the fuel), src_init_eq_model, src_windowed_stages_eq_model prove generated = model; src_init_validates shows every stager accepted by __init__ satisfies the termination preconditions; src_windows_sum, src_windowed_warm_sum, src_warmUp_warm_sum, src_main_last, src_windowed_shape restate the stager theorems for the generated definitions. The sampler's stage loop (samplers.py) is not translated."
+    " SOURCE TIE (Props/C16S.lean): on every run tools/extractors/pysrc.py translates WarmUpStager.stages, WindowedWarmUpStager.__init__ (validation) and WindowedWarmUpStager.stages (the three sizes incl. int(0.15 n), int(0.1 n), the while loop as a fuel-recursive function, order / lengths / kinds / trace and statistics flags of the emitted stages) into Lean over Nat/Rat; src_warmUp_stages_eq_model, src_windows_eq_model (induction over the fuel), src_init_eq_model, src_windowed_stages_eq_model prove generated = model; src_init_validates shows every stager accepted by __init__ satisfies the termination preconditions; src_windows_sum, src_windows_growing, src_windows_ratio (the slow windows grow: all but the last, remainder-absorbing, window are non-decreasing, at least the initial size, and each is int(multiplier * previous)), src_windowed_warm_sum, src_warmUp_warm_sum, src_main_last, src_windowed_shape restate the stager theorems for the generated definitions. The sampler's stage loop (samplers.py) is not translated."
 )
 LEVEL_NOTE += (
     ' Translator conventions (trusted, validated by the stage-table correspondence): Python ints are Nat (truncated subtraction), float settings Rat, decimal float literals the rationals they denote (0.15 = 3/20), int() = floor, the stage dictionary = list of its values in insertion order (labels checked pairwise different), adapters= abstracted to fast/slow/main after checking the defining comprehension of fast_adapters, fuel of the loop = bound + 1. A broken src_* obligation escalates the stage-table search (tripled range, boundary configurations, more invalid settings).'
